@@ -96,6 +96,15 @@ def run(ctx):
             if isinstance(gen.iter, ast.Call) and isinstance(gen.iter.func, ast.Attribute) and gen.iter.func.attr == 'items' and struct_of(gen.iter.func.value) in ('policy_map', 'policy_cache') \
                     and isinstance(gen.target, ast.Tuple) and isinstance(it.elt, ast.Name) and isinstance(gen.target.elts[0], ast.Name) and it.elt.id == gen.target.elts[0].id:
                 return 'map-derived'
+        # names read from a policy file, or all names currently in the shared store: these can be reserved names and need the guard
+        if isinstance(it, ast.Call) and isinstance(it.func, ast.Attribute) and it.func.attr == 'keys':
+            base = it.func.value
+            if struct_of(base) == 'policy_store':
+                return 'external:policy_store.keys()'
+            if isinstance(base, ast.Name):
+                bv = rd.values(node, base.id)
+                if bv and all(isinstance(v, ast.Call) and (call_name(v) or '').endswith('read_policy_from_file') for v in bv):
+                    return 'external:names defined by the policy file'
         if isinstance(it, ast.Name):
             vals = rd.values(node, it.id)
             ks = set(iter_class(method, [d for d in rd.reaching(node, it.id)][i][2] or node, v, depth + 1) if isinstance(v, ast.AST) else 'unknown:%s' % (v,) for i, v in enumerate(vals))
@@ -132,10 +141,15 @@ def run(ctx):
             continue
         kc = key_class(method, node, key)
         why = kc
+        if kc.startswith('unknown:'):
+            # the analysis cannot tell where this key comes from: that is not a verdict (exactness policy)
+            raise AnalysisError('unrecognised construct: provenance of the key used at %s:%s (%s %s) cannot be classified: %s' % (MONITOR, node.line, kind, struct, kc))
         if kc.startswith('param:'):
             okc, res = callers_ok(method, kc[6:])
             why = 'parameter %s; callers: %s' % (kc[6:], res)
-            kc = 'map-derived' if okc else 'unknown'
+            if not okc and any(str(k).startswith('unknown') for _, _, k in res):
+                raise AnalysisError('unrecognised construct: provenance of the key passed to %s cannot be classified: %s' % (method, res))
+            kc = 'map-derived' if okc else 'unguarded'
         if struct == 'policy_store':
             ctx.check(kc in ('guarded', 'map-derived'), 'C18.R1', k, site, 'key is %s' % why,
                       'the shared policy store is modified under a key that is neither checked against the reserved names nor drawn from the map/cache: %s' % why)
